@@ -196,10 +196,8 @@ def CC.posBlocked (c : CC) (apid : Nat) : Bool :=
   | none => false
   | some p => apid != p
 
-/-- `get_weight(pid, Q2, quark_coupling_type)` for EM/NC (`pid` may be negative) -/
-def CC.getWeightNC (c : CC) (pid : Int) (q2 : Rat) (t : QCT) : Rat :=
-  let ap := pid.natAbs
-  if c.posBlocked ap then 0 else
+/-- `get_weight` for EM/NC after the `nc_pos_charge` early return (`ap = abs(pid)`) -/
+def CC.getWeightNCraw (c : CC) (ap : Nat) (q2 : Rat) (t : QCT) : Rat :=
   let wphph := c.leptonicCoupling .phph t * c.propagatorFactor .phph q2 * c.partonicCouplingNC .phph ap t
   match c.ob.process with
   | .EM => wphph
@@ -209,20 +207,25 @@ def CC.getWeightNC (c : CC) (pid : Int) (q2 : Rat) (t : QCT) : Rat :=
     wphph + wphZ + wZZ
   | .CC => 0  -- not reached: CC goes through `getWeightCC`
 
+/-- `get_weight(pid, Q2, quark_coupling_type)` for EM/NC (`pid` may be negative) -/
+def CC.getWeightNC (c : CC) (pid : Int) (q2 : Rat) (t : QCT) : Rat :=
+  if c.posBlocked pid.natAbs then 0 else c.getWeightNCraw pid.natAbs q2 t
+
 /-- `get_weight(pid, Q2, None, cc_mask)` for CC (`apid = abs(pid)`) -/
 def CC.getWeightCC (c : CC) (apid : Nat) (mask : Mask) : Rat :=
   2 * c.partonicCouplingCC apid mask
 
+/-- `get_fl11_weight` after the process test and the `nc_pos_charge` early return -/
+def CC.getFl11WeightRaw (c : CC) (ap : Nat) (q2 : Rat) (nf : Nat) (t : QCT) : Rat :=
+  let w (m : Mode) := c.leptonicCoupling m t * c.propagatorFactor m q2 * c.partonicCouplingFl11 m ap nf t
+  match c.ob.process with
+  | .EM => w .phph
+  | _ => w .phph + w .phZ + w .Zph + w .ZZ
+
 /-- `get_fl11_weight` -/
 def CC.getFl11Weight (c : CC) (pid : Int) (q2 : Rat) (nf : Nat) (t : QCT) : Rat :=
-  let ap := pid.natAbs
   match c.ob.process with
   | .CC => 0
-  | pr =>
-    if c.posBlocked ap then 0 else
-    let w (m : Mode) := c.leptonicCoupling m t * c.propagatorFactor m q2 * c.partonicCouplingFl11 m ap nf t
-    match pr with
-    | .EM => w .phph
-    | _ => w .phph + w .phZ + w .Zph + w .ZZ
+  | _ => if c.posBlocked pid.natAbs then 0 else c.getFl11WeightRaw pid.natAbs q2 nf t
 
 end Yadism
